@@ -174,6 +174,8 @@ impl RowOracle {
         for b in &chk.branches {
             ctx.count(&format!("oracle:{b}"));
         }
+        // a distinct non-trivial outcome = (frame, row existed, oracle branches taken)
+        ctx.outcome(&(st.action.name.as_str(), pre_row.is_some(), &chk.branches));
         if pre_row.is_some() {
             ctx.count("step:update-existing-row");
         } else {
